@@ -1,20 +1,27 @@
-// C04 harness: one producer (r2owa) bonded to k consumers (i2rw) in a real bondmachine.VM; programs
-// vary the instruction mix and padding so that every phase offset between the agents occurs.
+// C04 harness: nets of processors joined by handshaked bonds (r2owa on the producer's output, i2rw
+// on every bonded consumer input) in a real bondmachine.VM; programs vary the instruction mix and
+// padding so that every phase offset between the agents occurs.  A net has P processors with
+// N_i inputs and M_i outputs and B bonds; bond b joins output (pp, op) to the inputs (cp_j, ip_j).
 //
-//	N <k>
+//	N <P> <B>
 //	D <op:delay,...>                 simulated per-opcode latencies of this case (may be empty)
-//	M <idx> A <arch line>            architecture of processor idx (0 = producer, 1..k consumers)
+//	M <idx> A <arch line>            architecture of processor idx
 //	M <idx> S <source line> ...      program source
 //	M <idx> P <words>                assembled program
-//	M <idx> IO <pc,pc,...>           program addresses of the IO instructions on the bond
 //	M <idx> H <sexp> | H err ...     the processor's generated Verilog (a0 + p0 + p0rom), parsed
+//	B <b> <pp> <op> <cp>:<ip>,...    bond b; pp = "e": the producer is the ENVIRONMENT on BondMachine input <op>;
+//	                                 cp = "e": a consumer is the environment on BondMachine output <ip>
+//	ENV <seed>                       seed of the environment's stall pattern
+//	IO <b> <idx> <pc,pc,...>         program addresses of processor idx's IO instructions on bond b
 //	T
-//	G pre=<pc,..> post=<pc,..> v=<valid> d=<data> r=<recv,..> df=<deferred,..> rv=<recv seen by producer>
-//	...                              one G line per VM.Step
-//	W <values written, in order of completion>
-//	R <i> <values captured by consumer i, in order>
+//	G pre=<pc,..> post=<pc,..> dl=<delay counters> v<b>=<valid> d<b>=<data> rv<b>=<recv seen by producer>
+//	  r<b>=<recv,..> df<b>=<deferred pending,..> ps<b>=<write completed> cs<b>=<captured,..>
+//	  wp<b>=<producer at its IO instruction> wc<b>=<consumers at theirs>        one G line per VM.Step
+//	W <b> <values written on bond b, in order of completion>
+//	R <b> <j> <values captured by the j-th consumer of bond b, in order>
 //
-// Usage: c04 gen <machines> <ticks> | c04 replay <file>   (replay file: N / M..S lines and "TICKS n")
+// Usage: c04 gen <nets> <ticks> | c04 replay <file>
+// (replay file: N / D / B lines, M..A and M..S lines, "TICKS n")
 package main
 
 import (
@@ -36,7 +43,86 @@ import (
 
 var out = common.NewOut(os.Stdout)
 
-func mkMachine(opnames []string, n, m, o int, src []string) (*procbuilder.Machine, error) {
+type end struct{ p, port int }
+
+type bond struct {
+	prod end
+	cons []end
+}
+
+type proc struct {
+	n, m int
+	src  []string
+}
+
+type netCase struct {
+	procs   []proc
+	bonds   []bond
+	delays  string
+	envSeed uint64
+}
+
+// The environment follows the handshake exactly as a processor does (r2owa on its side of a
+// BondMachine input, i2rw + the deferred drop of recv on its side of a BondMachine output), with an
+// arbitrary stall pattern: in every tick it either stays away or goes for its next transfer.
+type envProd struct {
+	atIO, valid bool
+	next, data  int
+	sent        []int
+}
+
+type envCons struct {
+	atIO, recv, deferred bool
+	got                  []int
+}
+
+func (e *envProd) step(want, recvIn bool) {
+	if !(e.atIO || want) {
+		return
+	}
+	switch {
+	case !e.valid && recvIn: // stale recv of the previous transfer: wait
+		e.atIO = true
+	case recvIn:
+		e.atIO, e.valid, e.data = false, false, e.next
+		e.sent = append(e.sent, e.next)
+		e.next++
+	default:
+		e.atIO, e.valid, e.data = true, true, e.next
+	}
+}
+
+func (e *envCons) step(want, validIn bool, dataIn int) {
+	if e.deferred && !validIn {
+		e.recv, e.deferred = false, false
+	}
+	if !(e.atIO || want) {
+		return
+	}
+	switch {
+	case validIn && e.recv:
+		e.atIO = true
+	case validIn:
+		e.got = append(e.got, dataIn)
+		e.recv, e.deferred, e.atIO = true, true, false
+	default:
+		e.recv, e.atIO = false, true
+	}
+}
+
+func opsOf(p proc) []string {
+	ops := []string{"inc", "j", "nop"}
+	if p.m > 0 {
+		ops = append(ops, "r2owa")
+	}
+	if p.n > 0 {
+		ops = append(ops, "i2rw")
+	}
+	sort.Strings(ops)
+	return ops
+}
+
+func mkMachine(p proc) (*procbuilder.Machine, error) {
 	all := map[string]procbuilder.Opcode{}
 	for _, op := range procbuilder.Allopcodes {
 		all[op.Op_get_name()] = op
@@ -45,18 +131,18 @@ func mkMachine(opnames []string, n, m, o int, src []string) (*procbuilder.Machin
 	a := &mc.Arch
 	a.Rsize = 8
 	a.R = 1
-	a.N = uint8(n)
-	a.M = uint8(m)
+	a.N = uint8(p.n)
+	a.M = uint8(p.m)
 	a.L = 0
-	a.O = uint8(o)
+	a.O = 5
 	a.Modes = []string{"ha"}
 	ops := []procbuilder.Opcode{}
-	for _, nm := range opnames {
+	for _, nm := range opsOf(p) {
 		ops = append(ops, all[nm])
 	}
 	sort.Sort(procbuilder.ByName(ops))
 	a.Op = ops
-	prog, err := a.Assembler([]byte(strings.Join(src, "\n") + "\n"))
+	prog, err := a.Assembler([]byte(strings.Join(p.src, "\n") + "\n"))
 	if err != nil {
 		return nil, err
 	}
@@ -91,13 +177,8 @@ func hdlSexp(m *procbuilder.Machine) string {
 	return res
 }
 
-var prodOps = []string{"inc", "j", "nop", "r2owa"}
-var consOps = []string{"i2rw", "j", "nop"}
-
-func archLine(ops []string, n, m, o int) string {
-	s := append([]string{}, ops...)
-	sort.Strings(s)
-	return fmt.Sprintf("A 8 1 %d %d 0 %d ha 0 ops=%s", n, m, o, strings.Join(s, ","))
+func archLine(p proc) string {
+	return fmt.Sprintf("A 8 1 %d %d 0 5 ha 0 ops=%s", p.n, p.m, strings.Join(opsOf(p), ","))
 }
 
 func pad(r *common.Rng, max int) []string {
@@ -107,54 +188,6 @@ func pad(r *common.Rng, max int) []string {
 		l = append(l, "nop")
 	}
 	return l
-}
-
-func genProducer(r *common.Rng) []string {
-	var l []string
-	n := 1 + r.Intn(3) // writes per loop
-	for i := 0; i < n; i++ {
-		if r.Chance(2, 3) {
-			l = append(l, "inc r0")
-		}
-		l = append(l, pad(r, 3)...)
-		l = append(l, "r2owa r0 o0")
-		if r.Chance(1, 3) { // back to back on the same output
-			l = append(l, "r2owa r0 o0")
-		}
-	}
-	l = append(l, pad(r, 2)...)
-	l = append(l, "j 0")
-	if len(l) > 16 {
-		l = append(l[:15], "j 0")
-	}
-	return l
-}
-
-func genConsumer(r *common.Rng) []string {
-	var l []string
-	n := 1 + r.Intn(3)
-	for i := 0; i < n; i++ {
-		l = append(l, pad(r, 4)...)
-		l = append(l, "i2rw r"+strconv.Itoa(r.Intn(2))+" i0")
-		if r.Chance(1, 3) { // back to back on the same input
-			l = append(l, "i2rw r"+strconv.Itoa(r.Intn(2))+" i0")
-		}
-	}
-	l = append(l, "j 0")
-	if len(l) > 16 {
-		l = append(l[:15], "j 0")
-	}
-	return l
-}
-
-func ioAddrs(src []string, op string) []int {
-	var a []int
-	for i, l := range src {
-		if strings.HasPrefix(l, op+" ") {
-			a = append(a, i)
-		}
-	}
-	return a
 }
 
 func ints(a []int) string {
@@ -172,6 +205,14 @@ func b2s(b bool) string {
 	return "0"
 }
 
+func bools(a []bool) string {
+	p := make([]string, len(a))
+	for i, v := range a {
+		p[i] = b2s(v)
+	}
+	return strings.Join(p, ",")
+}
+
 func u8(x interface{}) int {
 	if v, ok := x.(uint8); ok {
 		return int(v)
@@ -179,28 +220,247 @@ func u8(x interface{}) int {
 	return -1
 }
 
-// delays: per-opcode simulated latencies (simbox.SimDelays with one certain value each), "" = none
-func runCase(srcs [][]string, ticks int, delays string) {
-	k := len(srcs) - 1
-	out.Line("N %d", k)
-	out.Line("D %s", delays)
+// ioOn: does this source line perform IO on the given port as producer (out=true) or consumer?
+func ioOn(line string, out bool, port int) bool {
+	f := strings.Fields(line)
+	if len(f) != 3 {
+		return false
+	}
+	if out {
+		return f[0] == "r2owa" && f[2] == "o"+strconv.Itoa(port)
+	}
+	return f[0] == "i2rw" && f[2] == "i"+strconv.Itoa(port)
+}
+
+func ioAddrs(src []string, out bool, port int) []int {
+	var a []int
+	for i, l := range src {
+		if ioOn(l, out, port) {
+			a = append(a, i)
+		}
+	}
+	return a
+}
+
+// genNet: a random net.  Every processor walks the bonds it takes part in in increasing bond order
+// once per loop (all parties of a "doubled" bond access it twice back to back), which keeps the net
+// free of dead-lock whatever the speeds; everything else (ports, fan-out, padding, registers, chains of
+// processors that both read and write) is random.
+func genNet(r *common.Rng) netCase {
+	var nc netCase
+	shape := r.Intn(10)
+	var P int
+	switch {
+	case shape < 4: // the classic: one producer, k consumers, one bond (ports anywhere)
+		P = 2 + r.Intn(3)
+	default:
+		P = 2 + r.Intn(4)
+	}
+	nc.procs = make([]proc, P)
+	for i := range nc.procs {
+		nc.procs[i].n = r.Intn(4)
+		nc.procs[i].m = r.Intn(4)
+	}
+	usedIn := map[end]bool{}
+	usedOut := map[end]bool{}
+	addBond := func(pp int, cons []int) {
+		// free output port of pp (grow the processor when there is none)
+		p := &nc.procs[pp]
+		var free []int
+		for o := 0; o < p.m; o++ {
+			if !usedOut[end{pp, o}] {
+				free = append(free, o)
+			}
+		}
+		if len(free) == 0 {
+			if p.m >= 4 {
+				return
+			}
+			p.m++
+			free = []int{p.m - 1}
+		}
+		b := bond{prod: end{pp, free[r.Intn(len(free))]}}
+		for _, c := range cons {
+			q := &nc.procs[c]
+			var fi []int
+			for i := 0; i < q.n; i++ {
+				if !usedIn[end{c, i}] {
+					fi = append(fi, i)
+				}
+			}
+			if len(fi) == 0 {
+				if q.n >= 4 {
+					continue
+				}
+				q.n++
+				fi = []int{q.n - 1}
+			}
+			e := end{c, fi[r.Intn(len(fi))]}
+			usedIn[e] = true
+			b.cons = append(b.cons, e)
+		}
+		if len(b.cons) == 0 {
+			return
+		}
+		usedOut[b.prod] = true
+		nc.bonds = append(nc.bonds, b)
+	}
+	if shape < 4 {
+		var cons []int
+		for i := 1; i < P; i++ {
+			cons = append(cons, i)
+		}
+		addBond(0, cons)
+	} else {
+		nb := 2 + r.Intn(3)
+		for k := 0; k < nb; k++ {
+			pp := r.Intn(P)
+			var cons []int
+			for c := 0; c < P; c++ {
+				// data flows from lower to higher numbers (plus now and then a second input of the same
+				// consumer from the same producer): acyclic
+				if c > pp && r.Chance(1, 2) {
+					cons = append(cons, c)
+					if r.Chance(1, 6) {
+						cons = append(cons, c)
+					}
+				}
+			}
+			if len(cons) == 0 && pp+1 < P {
+				cons = []int{pp + 1 + r.Intn(P-pp-1)}
+			}
+			if len(cons) > 0 {
+				addBond(pp, cons)
+			}
+		}
+		if len(nc.bonds) == 0 {
+			addBond(0, []int{1})
+		}
+	}
+	nc.envSeed = r.Next()
+	if r.Chance(2, 5) { // the environment takes part: BondMachine inputs and outputs with stall patterns
+		nIn, nOut := 0, 0
+		for k := 1 + r.Intn(2); k > 0; k-- {
+			// (a BondMachine input bonded straight to a BondMachine output involves no processor: not generated)
+			if b := r.Intn(len(nc.bonds)); r.Bool() && nc.bonds[b].prod.p >= 0 {
+				nc.bonds[b].cons = append(nc.bonds[b].cons, end{-1, nOut})
+				nOut++
+			} else {
+				b := bond{prod: end{-1, nIn}}
+				for c := 0; c < P; c++ {
+					if !r.Chance(1, 2) {
+						continue
+					}
+					q := &nc.procs[c]
+					var fi []int
+					for i := 0; i < q.n; i++ {
+						if !usedIn[end{c, i}] {
+							fi = append(fi, i)
+						}
+					}
+					if len(fi) == 0 {
+						if q.n >= 4 {
+							continue
+						}
+						q.n++
+						fi = []int{q.n - 1}
+					}
+					e := end{c, fi[r.Intn(len(fi))]}
+					usedIn[e] = true
+					b.cons = append(b.cons, e)
+				}
+				if len(b.cons) > 0 {
+					nc.bonds = append(nc.bonds, b)
+					nIn++
+				}
+			}
+		}
+	}
+	dbl := make([]bool, len(nc.bonds))
+	for b := range dbl {
+		dbl[b] = r.Chance(1, 3)
+	}
+	rounds := 1 + r.Intn(2)
+	for i := range nc.procs {
+		var l []string
+		for rd := 0; rd < rounds; rd++ {
+			for b, bd := range nc.bonds {
+				var lines []string
+				if bd.prod.p == i {
+					if r.Chance(2, 3) {
+						l = append(l, "inc r0")
+					}
+					reg := 0
+					if r.Chance(1, 5) {
+						reg = 1 // relays whatever was read last
+					}
+					lines = append(lines, fmt.Sprintf("r2owa r%d o%d", reg, bd.prod.port))
+				}
+				for _, c := range bd.cons {
+					if c.p == i {
+						lines = append(lines, fmt.Sprintf("i2rw r%d i%d", r.Intn(2), c.port))
+					}
+				}
+				if len(lines) == 0 {
+					continue
+				}
+				if r.Chance(2, 3) {
+					l = append(l, pad(r, 3)...)
+				}
+				n := 1
+				if dbl[b] {
+					n = 2
+				}
+				for k := 0; k < n; k++ {
+					l = append(l, lines...)
+				}
+			}
+		}
+		l = append(l, pad(r, 2)...)
+		l = append(l, "j 0")
+		if len(l) > 32 {
+			// (cannot happen with the sizes above; kept as a guard for replay files)
+			l = append(l[:31], "j 0")
+		}
+		nc.procs[i].src = l
+	}
+	if r.Chance(1, 2) { // simulated per-opcode latencies: relative speeds vary without changing the programs
+		var ds []string
+		for _, op := range []string{"nop", "i2rw", "r2owa", "inc", "j"} {
+			if r.Chance(1, 3) {
+				ds = append(ds, op+":"+strconv.Itoa(1+r.Intn(8)))
+			}
+		}
+		nc.delays = strings.Join(ds, ",")
+	}
+	return nc
+}
+
+func endName(e end, out bool) string {
+	if e.p < 0 {
+		if out {
+			return "i" + strconv.Itoa(e.port) // a BondMachine input drives
+		}
+		return "o" + strconv.Itoa(e.port)
+	}
+	if out {
+		return fmt.Sprintf("p%do%d", e.p, e.port)
+	}
+	return fmt.Sprintf("p%di%d", e.p, e.port)
+}
+
+func runCase(nc netCase, ticks int) {
+	P, B := len(nc.procs), len(nc.bonds)
+	out.Line("N %d %d", P, B)
+	out.Line("D %s", nc.delays)
+	out.Line("ENV %d", nc.envSeed)
 	bm := new(bondmachine.Bondmachine)
 	bm.Rsize = 8
 	bm.Init()
-	var ioaddr [][]int
-	for i, src := range srcs {
-		var mc *procbuilder.Machine
-		var err error
-		if i == 0 {
-			out.Line("M 0 %s", archLine(prodOps, 0, 1, 4))
-			mc, err = mkMachine(prodOps, 0, 1, 4, src)
-			ioaddr = append(ioaddr, ioAddrs(src, "r2owa"))
-		} else {
-			out.Line("M %d %s", i, archLine(consOps, 1, 0, 4))
-			mc, err = mkMachine(consOps, 1, 0, 4, src)
-			ioaddr = append(ioaddr, ioAddrs(src, "i2rw"))
-		}
-		for _, l := range src {
+	for i, p := range nc.procs {
+		out.Line("M %d %s", i, archLine(p))
+		mc, err := mkMachine(p)
+		for _, l := range p.src {
 			out.Line("M %d S %s", i, l)
 		}
 		if err != nil {
@@ -209,19 +469,58 @@ func runCase(srcs [][]string, ticks int, delays string) {
 			return
 		}
 		out.Line("M %d P %s", i, strings.Join(mc.Program.Slocs, " "))
-		out.Line("M %d IO %s", i, ints(ioaddr[i]))
 		out.Line("M %d H %s", i, hdlSexp(mc))
 		bm.Domains = append(bm.Domains, mc)
 		bm.Add_processor(len(bm.Domains) - 1)
 	}
-	for i := 1; i <= k; i++ {
-		bm.Add_bond([]string{fmt.Sprintf("p%di0", i), "p0o0"})
+	// external ports used by the environment's ends
+	for _, bd := range nc.bonds {
+		if bd.prod.p < 0 {
+			for bm.Inputs <= bd.prod.port {
+				bm.Add_input()
+			}
+		}
+		for _, c := range bd.cons {
+			if c.p < 0 {
+				for bm.Outputs <= c.port {
+					bm.Add_output()
+				}
+			}
+		}
+	}
+	// per bond and party: the addresses of the IO instructions
+	ioP := make([][]int, B)
+	ioC := make([][][]int, B)
+	pn := func(e end) string {
+		if e.p < 0 {
+			return "e"
+		}
+		return strconv.Itoa(e.p)
+	}
+	for b, bd := range nc.bonds {
+		var cs []string
+		for _, c := range bd.cons {
+			cs = append(cs, fmt.Sprintf("%s:%d", pn(c), c.port))
+			bm.Add_bond([]string{endName(c, false), endName(bd.prod, true)})
+		}
+		out.Line("B %d %s %d %s", b, pn(bd.prod), bd.prod.port, strings.Join(cs, ","))
+		if bd.prod.p >= 0 {
+			ioP[b] = ioAddrs(nc.procs[bd.prod.p].src, true, bd.prod.port)
+			out.Line("IO %d %d %s", b, bd.prod.p, ints(ioP[b]))
+		}
+		ioC[b] = make([][]int, len(bd.cons))
+		for j, c := range bd.cons {
+			if c.p >= 0 {
+				ioC[b][j] = ioAddrs(nc.procs[c.p].src, false, c.port)
+				out.Line("IO %d %d:%d %s", b, c.p, c.port, ints(ioC[b][j]))
+			}
+		}
 	}
 	vm := new(bondmachine.VM)
 	vm.Bmach = bm
-	if delays != "" {
+	if nc.delays != "" {
 		sd := simbox.NewSimDelays()
-		for _, kv := range strings.Split(delays, ",") {
+		for _, kv := range strings.Split(nc.delays, ",") {
 			f := strings.SplitN(kv, ":", 2)
 			d, _ := strconv.Atoi(f[1])
 			sd.OpcodeDelays[f[0]] = simbox.DelayDistribution{int32(d): 1.0}
@@ -243,25 +542,60 @@ func runCase(srcs [][]string, ticks int, delays string) {
 		return
 	}
 	defer vm.Shutdown()
-	var written []int
-	recvd := make([][]int, k+1)
-	isIO := func(p int, pc int) bool {
-		for _, a := range ioaddr[p] {
-			if a == pc {
+	for i := range vm.Inputs_regs {
+		vm.Inputs_regs[i] = uint8(0)
+	}
+	written := make([][]int, B)
+	recvd := make([][][]int, B)
+	eprod := make([]*envProd, B)
+	econs := make([][]*envCons, B)
+	for b, bd := range nc.bonds {
+		recvd[b] = make([][]int, len(bd.cons))
+		econs[b] = make([]*envCons, len(bd.cons))
+		if bd.prod.p < 0 {
+			eprod[b] = &envProd{}
+		}
+		for j, c := range bd.cons {
+			if c.p < 0 {
+				econs[b][j] = &envCons{}
+			}
+		}
+	}
+	er := common.NewRng(nc.envSeed)
+	stall := 1 + er.Intn(4) // the environment goes for a transfer in one tick out of `stall`
+	in := func(a []int, pc int) bool {
+		for _, x := range a {
+			if x == pc {
 				return true
 			}
 		}
 		return false
 	}
 	for t := 0; t < ticks; t++ {
-		pre := make([]int, k+1)
-		dl := make([]int, k+1)
+		pre := make([]int, P)
+		dl := make([]int, P)
 		for i := range pre {
 			pre[i] = int(vm.Processors[i].Pc)
 			dl[i] = int(vm.Processors[i].DelayCounter)
 		}
-		seen := vm.Processors[0].OutputsRecv[0] // as left by the previous tick's movement; refreshed in Step
-		_ = seen
+		// what the environment sees of the machine's ports before this tick, and whether it acts in it
+		type esample struct {
+			want, b bool
+			d       int
+		}
+		eps := make([]esample, B)
+		ecs := make([][]esample, B)
+		for b, bd := range nc.bonds {
+			if eprod[b] != nil {
+				eps[b] = esample{want: er.Intn(stall) == 0, b: vm.InputsRecv[bd.prod.port]}
+			}
+			ecs[b] = make([]esample, len(bd.cons))
+			for j, c := range bd.cons {
+				if econs[b][j] != nil {
+					ecs[b][j] = esample{want: er.Intn(stall) == 0, b: vm.OutputsValid[c.port], d: u8(vm.Outputs_regs[c.port])}
+				}
+			}
+		}
 		r := common.Guard(func() string {
 			if _, err := vm.Step(nil); err != nil {
 				return "G err"
@@ -272,41 +606,84 @@ func runCase(srcs [][]string, ticks int, delays string) {
 			out.Line("%s", r)
 			break
 		}
-		post := make([]int, k+1)
+		post := make([]int, P)
 		for i := range post {
 			post[i] = int(vm.Processors[i].Pc)
 		}
-		p0 := vm.Processors[0]
-		// completion of a write / a read = the pc left the IO instruction
-		if isIO(0, pre[0]) && dl[0] == 0 && post[0] != pre[0] {
-			written = append(written, u8(p0.Outputs[0]))
-		}
-		var rs, dfs []string
-		for i := 1; i <= k; i++ {
-			c := vm.Processors[i]
-			rs = append(rs, b2s(c.InputsRecv[0]))
-			_, pend := c.DeferredInstructions["waitRecvI2rw0"]
-			dfs = append(dfs, b2s(pend))
-			if isIO(i, pre[i]) && dl[i] == 0 && post[i] != pre[i] {
-				// the destination register of the i2rw just executed
-				f := strings.Fields(srcs[i][pre[i]])
-				reg, _ := strconv.Atoi(strings.TrimPrefix(f[1], "r"))
-				recvd[i] = append(recvd[i], u8(c.Registers[reg]))
+		var sb strings.Builder
+		fmt.Fprintf(&sb, "G pre=%s post=%s dl=%s", ints(pre), ints(post), ints(dl))
+		for b, bd := range nc.bonds {
+			var v, rv, ps, wp bool
+			var d int
+			if e := eprod[b]; e != nil {
+				wp = e.atIO || eps[b].want
+				n0 := len(e.sent)
+				e.step(eps[b].want, eps[b].b)
+				vm.InputsValid[bd.prod.port] = e.valid
+				vm.Inputs_regs[bd.prod.port] = uint8(e.data)
+				ps = len(e.sent) != n0
+				if ps {
+					written[b] = append(written[b], e.sent[n0]%256)
+				}
+				v, d, rv = e.valid, e.data%256, eps[b].b
+			} else {
+				pp := vm.Processors[bd.prod.p]
+				wp = in(ioP[b], pre[bd.prod.p]) && dl[bd.prod.p] == 0
+				// completion of a write / a read = the pc left the IO instruction
+				ps = wp && post[bd.prod.p] != pre[bd.prod.p]
+				if ps {
+					written[b] = append(written[b], u8(pp.Outputs[bd.prod.port]))
+				}
+				v, d, rv = pp.OutputsValid[bd.prod.port], u8(pp.Outputs[bd.prod.port]), pp.OutputsRecv[bd.prod.port]
 			}
+			var rs, dfs, cs, wc []bool
+			for j, c := range bd.cons {
+				if e := econs[b][j]; e != nil {
+					wc = append(wc, e.atIO || ecs[b][j].want)
+					n0 := len(e.got)
+					e.step(ecs[b][j].want, ecs[b][j].b, ecs[b][j].d)
+					vm.OutputsRecv[c.port] = e.recv
+					cs = append(cs, len(e.got) != n0)
+					recvd[b][j] = e.got
+					rs = append(rs, e.recv)
+					dfs = append(dfs, e.deferred)
+					continue
+				}
+				cp := vm.Processors[c.p]
+				rs = append(rs, cp.InputsRecv[c.port])
+				_, pend := cp.DeferredInstructions["waitRecvI2rw"+strconv.Itoa(c.port)]
+				dfs = append(dfs, pend)
+				w := in(ioC[b][j], pre[c.p]) && dl[c.p] == 0
+				wc = append(wc, w)
+				done := w && post[c.p] != pre[c.p]
+				cs = append(cs, done)
+				if done {
+					// the destination register of the i2rw just executed
+					f := strings.Fields(nc.procs[c.p].src[pre[c.p]])
+					reg, _ := strconv.Atoi(strings.TrimPrefix(f[1], "r"))
+					recvd[b][j] = append(recvd[b][j], u8(cp.Registers[reg]))
+				}
+			}
+			fmt.Fprintf(&sb, " v%d=%s d%d=%d rv%d=%s r%d=%s df%d=%s ps%d=%s cs%d=%s wp%d=%s wc%d=%s", b, b2s(v), b, d, b, b2s(rv), b, bools(rs), b, bools(dfs),
+				b, b2s(ps), b, bools(cs), b, b2s(wp), b, bools(wc))
 		}
-		out.Line("G pre=%s post=%s dl=%s v=%s d=%d r=%s df=%s rv=%s", ints(pre), ints(post), ints(dl), b2s(p0.OutputsValid[0]), u8(p0.Outputs[0]),
-			strings.Join(rs, ","), strings.Join(dfs, ","), b2s(p0.OutputsRecv[0]))
+		out.Line("%s", sb.String())
 	}
-	out.Line("W %s", ints(written))
-	for i := 1; i <= k; i++ {
-		out.Line("R %d %s", i, ints(recvd[i]))
+	for b := range nc.bonds {
+		out.Line("W %d %s", b, ints(written[b]))
+		for j := range nc.bonds[b].cons {
+			out.Line("R %d %d %s", b, j, ints(recvd[b][j]))
+		}
 	}
+	out.Line("E")
 	out.Flush()
 }
 
+func atoi(s string) int { v, _ := strconv.Atoi(s); return v }
+
 func main() {
 	if len(os.Args) < 2 {
-		fmt.Fprintln(os.Stderr, "usage: c04 gen <machines> <ticks> | replay <file>")
+		fmt.Fprintln(os.Stderr, "usage: c04 gen <nets> <ticks> | replay <file>")
 		os.Exit(2)
 	}
 	switch os.Args[1] {
@@ -315,22 +692,7 @@ func main() {
 		ticks, _ := strconv.Atoi(os.Args[3])
 		r := common.NewRng(common.Seed())
 		for c := 0; c < n; c++ {
-			k := 1 + r.Intn(3)
-			srcs := [][]string{genProducer(r)}
-			for i := 0; i < k; i++ {
-				srcs = append(srcs, genConsumer(r))
-			}
-			delays := ""
-			if r.Chance(1, 2) { // simulated per-opcode latencies: relative speeds vary without changing the programs
-				var ds []string
-				for _, op := range []string{"nop", "i2rw", "r2owa", "inc", "j"} {
-					if r.Chance(1, 3) {
-						ds = append(ds, op+":"+strconv.Itoa(1+r.Intn(8)))
-					}
-				}
-				delays = strings.Join(ds, ",")
-			}
-			runCase(srcs, ticks, delays)
+			runCase(genNet(r), ticks)
 		}
 	case "replay":
 		f, err := os.Open(os.Args[2])
@@ -339,34 +701,66 @@ func main() {
 			os.Exit(2)
 		}
 		sc := bufio.NewScanner(f)
-		var srcs [][]string
+		sc.Buffer(make([]byte, 1<<20), 1<<26)
+		var nc *netCase
 		ticks := 200
-		delays := ""
 		flush := func() {
-			if len(srcs) > 0 {
-				runCase(srcs, ticks, delays)
+			if nc != nil && len(nc.procs) > 0 {
+				runCase(*nc, ticks)
 			}
-			srcs = nil
-			delays = ""
+			nc = nil
 		}
 		for sc.Scan() {
 			l := sc.Text()
 			switch {
 			case strings.HasPrefix(l, "N "):
 				flush()
+				nc = &netCase{}
+			case nc == nil:
 			case strings.HasPrefix(l, "D "):
-				delays = strings.TrimSpace(strings.TrimPrefix(l, "D "))
+				nc.delays = strings.TrimSpace(strings.TrimPrefix(l, "D "))
 			case l == "D":
+			case strings.HasPrefix(l, "ENV "):
+				nc.envSeed, _ = strconv.ParseUint(strings.TrimSpace(strings.TrimPrefix(l, "ENV ")), 10, 64)
 			case strings.HasPrefix(l, "TICKS "):
 				ticks, _ = strconv.Atoi(strings.TrimPrefix(l, "TICKS "))
+			case strings.HasPrefix(l, "B "):
+				f := strings.Fields(l)
+				if len(f) >= 5 {
+					pidx := func(s string) int {
+						if s == "e" {
+							return -1
+						}
+						return atoi(s)
+					}
+					b := bond{prod: end{pidx(f[2]), atoi(f[3])}}
+					for _, c := range strings.Split(f[4], ",") {
+						q := strings.SplitN(c, ":", 2)
+						if len(q) == 2 {
+							b.cons = append(b.cons, end{pidx(q[0]), atoi(q[1])})
+						}
+					}
+					nc.bonds = append(nc.bonds, b)
+				}
 			case strings.HasPrefix(l, "M "):
 				f := strings.SplitN(l, " ", 4)
-				if len(f) == 4 && f[2] == "S" {
-					idx, _ := strconv.Atoi(f[1])
-					for len(srcs) <= idx {
-						srcs = append(srcs, nil)
+				if len(f) < 4 {
+					continue
+				}
+				idx := atoi(f[1])
+				for len(nc.procs) <= idx {
+					nc.procs = append(nc.procs, proc{})
+				}
+				switch f[2] {
+				case "S":
+					nc.procs[idx].src = append(nc.procs[idx].src, f[3])
+				case "A":
+					// "A 8 1 <n> <m> ..." (f[3] starts after "M i A")
+					q := strings.Fields(f[3])
+					if len(q) >= 4 {
+						nc.procs[idx].n = atoi(q[2])
+						nc.procs[idx].m = atoi(q[3])
 					}
-					srcs[idx] = append(srcs[idx], f[3])
 				}
 			}
 		}
